@@ -388,8 +388,19 @@ class C08(Prop):
             raise checklib.Infra("C08 worker: %s" % e)
         texts, table, states, errs = {}, [], [], set()
         first = None
+        order_texts = [None] * len(specs)
+        base_content = None
+        skipped = 0
         for hs in sorted(ans):
             for oi, r in enumerate(ans[hs]["runs"]):
+                if order_texts[oi] is None:
+                    order_texts[oi] = r.get("text") if not r.get("err") else {"err": r["err"]}
+                if r.get("content") is not None:
+                    if base_content is None:
+                        base_content = r["content"]
+                    elif r["content"] != base_content:
+                        skipped += 1                     # colliding add calls: this order builds another content
+                        continue
                 if r.get("err"):
                     errs.add(r["err"])
                     table.append([hs, a["orders"][oi], "ERR:" + r["err"]])
@@ -402,7 +413,8 @@ class C08(Prop):
                     if str(di) in r.get("other", {}):
                         texts.setdefault(s, r["other"][str(di)])
                 states.append([hs, a["orders"][oi], r.get("before"), r.get("after")])
-        return {"first": first, "texts": texts, "table": table, "states": states, "errs": sorted(errs)}
+        return {"first": first, "texts": texts, "table": table, "states": states, "errs": sorted(errs), "order_texts": order_texts,
+                "other_content": skipped}
 
     # ---- model side
     def model_requests(self, case):
@@ -439,10 +451,9 @@ class C08(Prop):
         return res
 
     def compare(self, case, real_out, model_out):
-        bad = [m for m in model_out if m != real_out["first"]]
-        if bad:
-            b = bad[0]
-            return {"real": _excerpt(real_out["first"], b), "model": _excerpt(b, real_out["first"])}
+        for m, r in zip(model_out, real_out["order_texts"]):
+            if m != r:
+                return {"real": _excerpt(r, m), "model": _excerpt(m, r)}
         return None
 
     # ---- the property on the real output
@@ -487,6 +498,8 @@ class C08(Prop):
         dist[fmt] = dist.get(fmt, 0) + 1
         dist["runs"] = dist.get("runs", 0) + len(real_out["table"])
         dist["hashseeds"] = max(dist.get("hashseeds", 0), len(a.get("hashseeds") or []))
+        if real_out.get("other_content"):
+            dist[fmt + ":orders reaching another content (colliding adds, skipped)"] = dist.get(fmt + ":orders reaching another content (colliding adds, skipped)", 0) + real_out["other_content"]
         if real_out.get("errs"):
             dist[fmt + ":unwritable"] = dist.get(fmt + ":unwritable", 0) + 1
         for f in features(fmt, a["spec"]):
